@@ -9,7 +9,10 @@ use arc_swap::ArcSwapOption;
 use std::collections::BTreeMap;
 use std::iter::repeat;
 use std::ops::Deref;
+#[cfg(not(kaj_rsass_verif))]
 use std::sync::{Arc, LazyLock, Mutex};
+#[cfg(kaj_rsass_verif)]
+use crate::verif::sync::{Arc, LazyLock, Mutex};
 
 /// A static or dynamic scope referece.
 ///
